@@ -53,7 +53,7 @@ def vdiv(a, b):
 
 
 def _is_plain(v):
-    return isinstance(v, (int, float, complex, Fraction, Sx, symnp._NaN, _np.number, core.Qx))
+    return isinstance(v, (int, float, complex, Fraction, Sx, symnp._NaN, _np.number, core.Qx, core.AbsSx))
 
 
 def _el_pow(a, b):
@@ -66,6 +66,8 @@ def _el_pow(a, b):
         b = int(f) if f.denominator == 1 else f
     if isinstance(a, symnp._NaN):
         return a
+    if isinstance(a, core.AbsSx):
+        return a ** b
     if isinstance(b, int):
         if isinstance(a, Sx):
             return a ** b
